@@ -19,8 +19,18 @@ def cleanup_all():
     shutil.rmtree(os.path.join(vlib.SHM, 'rqverif.ws.%d' % os.getpid()), ignore_errors=True)
 
 
+def alt_patches(ws):
+    """Every fourth workspace keeps its patches in `pd` instead of `patches` and is pushed with `-p pd`."""
+    import zlib
+    return (zlib.crc32(ws.encode()) >> 8) % 4 == 0
+
+
+def patches_rel(ws, rel):
+    return 'pd/' + rel[len('patches/'):] if rel.startswith('patches/') and alt_patches(ws) else rel
+
+
 def write(ws, rel, data, mode=None):
-    p = os.path.join(ws, rel)
+    p = os.path.join(ws, patches_rel(ws, rel))
     os.makedirs(os.path.dirname(p), exist_ok=True)
     with open(p, 'wb') as f:
         f.write(data)
@@ -40,7 +50,17 @@ def push(ws, args=(), env=None, timeout=60, binary=None, retry_ok=False, via_d=N
         # (runs that record a hook trace stay in the workspace: their consumers expect paths relative to it)
         via_d = zlib.crc32(ws.encode()) % 4 == 0 and 'RAPIDQUILT_VERIF_TRACE' not in e
     cwd = ws
-    argv = [binary or vlib.BIN, 'push'] + [str(a) for a in args]
+    args = [str(a) for a in args]
+    h = zlib.crc32(ws.encode())
+    # equivalent forms of the same invocation (Cmd.tla, "invocation forms"): the thread count from the environment
+    # instead of --threads; the patches in another directory named with -p
+    if '--threads' in args and (h >> 4) % 3 == 0 and 'RAPIDQUILT_THREADS' not in e:
+        i = args.index('--threads')
+        e['RAPIDQUILT_THREADS'] = args[i + 1]
+        args = args[:i] + args[i + 2:]
+    if os.path.isdir(os.path.join(ws, 'pd')) and not os.path.exists(os.path.join(ws, 'patches')) and '-p' not in args:
+        args = args + ['-p', 'pd']
+    argv = [binary or vlib.BIN, 'push'] + args
     if via_d:
         base = os.path.join(vlib.SHM, 'rqverif.ws.%d' % os.getpid())
         os.makedirs(base, exist_ok=True)
@@ -70,7 +90,7 @@ def push(ws, args=(), env=None, timeout=60, binary=None, retry_ok=False, via_d=N
             shutil.rmtree(cwd, ignore_errors=True)
 
 
-def snapshot(ws, skip=('patches', 'series'), meta=False):
+def snapshot(ws, skip=('patches', 'pd', 'series'), meta=False):
     """path -> (bytes, mode) for every file; directories as path + '/' -> (None, mode).  With meta=True
     the value also carries (inode, mtime_ns)."""
     snap = {}
@@ -120,8 +140,11 @@ def strace_push(ws_dir, args, env=None, timeout=120, inject=None, binary=None):
     e = dict(ENV)
     if env:
         e.update(env)
+    args = [str(a) for a in args]
+    if os.path.isdir(os.path.join(ws_dir, 'pd')) and not os.path.exists(os.path.join(ws_dir, 'patches')) and '-p' not in args:
+        args = args + ['-p', 'pd']
     try:
-        p = subprocess.run(cmd + [binary or vlib.BIN, 'push'] + [str(a) for a in args], cwd=ws_dir, env=e,
+        p = subprocess.run(cmd + [binary or vlib.BIN, 'push'] + args, cwd=ws_dir, env=e,
                            stdout=subprocess.PIPE, stderr=subprocess.PIPE, timeout=timeout)
         rc, se = p.returncode, p.stderr.decode('utf-8', 'replace')
     except subprocess.TimeoutExpired:
